@@ -109,7 +109,7 @@ pub const BOUNDARY_LENS: [usize; 30] = [0, 1, 2, 62, 63, 64, 65, 66, 127, 128, 1
     4094, 4095, 4096, 4097, 4098, 8191, 8192, 8193, 32767, 32768, 32769];
 
 pub fn extremes(len: usize) -> Vec<usize> {
-    let mut v = vec![0usize, 1, len.wrapping_sub(1), len, len + 1, 2 * len, 1usize << 63, usize::MAX - 1, usize::MAX];
+    let mut v = vec![0usize, 1, len.wrapping_sub(1), len, len.wrapping_add(1), len.wrapping_mul(2), 1usize << 63, usize::MAX - 1, usize::MAX];
     v.sort();
     v.dedup();
     v
